@@ -63,6 +63,17 @@ static void check_pair(const Tables& t, const std::vector<double>& a, const std:
     std::vector<double> z(n, 0.0);
     SU_vector u = mkvec(d, z); u += iCommutator(va, vb); cmp("iCommutator(+=)", u, ic);
     SU_vector w = mkvec(d, z); w += ACommutator(va, vb); cmp("ACommutator(+=)", w, ac);
+    { // guarantee wrappers the caller may truthfully give: EqualSizes alone when the destination is an operand, all three otherwise
+      using namespace squids::detail;
+      SU_vector A1 = va; A1 = guarantee<EqualSizes>(iCommutator(A1, vb)); cmp("A=guarantee<EqualSizes>(iCommutator(A,B))", A1, ic);
+      SU_vector B1 = vb; B1 = guarantee<EqualSizes>(ACommutator(va, B1)); cmp("B=guarantee<EqualSizes>(ACommutator(A,B))", B1, ac);
+      SU_vector A2 = va; A2 += guarantee<EqualSizes>(iCommutator(A2, vb)); std::vector<double> w1(n); for (int k = 0; k < n; k++) w1[k] = a[k] + ic[k];
+      { std::vector<double> g = comps(A2); double e = maxdiff(g, w1); if (!(e <= tol + 4 * ref::EPS * maxabs(a))) violation("A+=guarantee<EqualSizes>(iCommutator(A,B)):mismatch:d=" + std::to_string(d), J().i("d", d).arr("a", a).arr("b", b).arr("got", g).arr("want", w1).done()); }
+      SU_vector B2 = vb; B2 -= guarantee<EqualSizes>(ACommutator(va, B2)); std::vector<double> w2(n); for (int k = 0; k < n; k++) w2[k] = b[k] - ac[k];
+      { std::vector<double> g = comps(B2); double e = maxdiff(g, w2); if (!(e <= tol + 4 * ref::EPS * maxabs(b))) violation("B-=guarantee<EqualSizes>(ACommutator(A,B)):mismatch:d=" + std::to_string(d), J().i("d", d).arr("a", a).arr("b", b).arr("got", g).arr("want", w2).done()); }
+      SU_vector C1 = mkvec(d, probe(d, 0)); C1 = guarantee<NoAlias | EqualSizes>(iCommutator(va, vb)); cmp("C=guarantee<NoAlias|EqualSizes>(iCommutator(A,B))", C1, ic);
+      SU_vector C2 = mkvec(d, probe(d, 0)); C2 = guarantee<NoAlias | EqualSizes>(ACommutator(va, vb)); cmp("C=guarantee<NoAlias|EqualSizes>(ACommutator(A,B))", C2, ac);
+    }
     double t0 = SUTrace<0>(va, vb);
     if (!ref::biteq(t0, got) && !(std::fabs(t0 - got) <= ttol)) violation("SUTrace<0>:differs-from-operator*", J().i("d", d).arr("a", a).arr("b", b).done());
     SU_vector aa = SU_vector::make_aligned(d), ab = SU_vector::make_aligned(d);
